@@ -514,13 +514,23 @@ def _file_case(draw):
         f["blk"] = draw(st.sampled_from([base["blk"], base["blk"], 0, draw(st.integers(0, 40))]))
         faults.append(_sanitize(f, nc))  # the block edge moved: re-apply the placement rule of the replaced-by-noise variant
     gen = draw(st.sampled_from(["3B2", "NP2.1"]))
+    bd = draw(st.sampled_from([0.3, 0.2, 0.15, 0.15]))
+    gap = 0.06
+    if draw(st.integers(0, 2)) == 0:
+        # a recording shorter than n_batches x batch_duration: the evenly spaced batches overlap (down to a file barely longer
+        # than one batch); the same faults are then present in the whole file. n_batches 10 with 0.3 s is the default call form.
+        nb = draw(st.sampled_from([3, 5, 10]))
+        if nb == 10:
+            bd = 0.3
+        gap = -bd * draw(st.sampled_from([0.3, 0.6, 0.9, 0.97]))
+        faults = [faults[0]] * nb
     return {"kind": "file", "gen": gen, "cbin": draw(st.sampled_from([False, False, True])), "nb": nb,
-            "bd": draw(st.sampled_from([0.3, 0.2, 0.15, 0.15])), "gap": 0.06, "fs": draw(st.sampled_from([FS_AP, 29999.757983])),
+            "bd": bd, "gap": gap, "fs": draw(st.sampled_from([FS_AP, 29999.757983])),
             "bg": draw(_st_bg()), "faults": faults, "sync_seed": draw(st.integers(0, 2 ** 16))}
 
 
 def strategy(tier):
-    return st.integers(0, 199).flatmap(lambda k: _interp_case() if k < 168 else (_detect_case() if k < 198 else _file_case()))
+    return st.integers(0, 199).flatmap(lambda k: _interp_case() if k < 168 else (_detect_case() if k < 197 else _file_case()))
 
 
 # ------------------------------------------------------------------------------------------------------------------
@@ -662,8 +672,12 @@ def _run_file(case, ctx):
     bg = case["bg"]
     faults = [_sanitize(dict(f), nc) for f in case["faults"]]
     X, rng = _background(bg, nc, ns, fs)
-    for j, f in enumerate(faults):
-        _inject(X, slice(cuts[j], cuts[j + 1]), f, bg, fs, rng)
+    if gap < 0:
+        _inject(X, slice(0, ns), faults[0], bg, fs, rng)  # overlapping batches: one fault set for the whole file
+        ctx.label("file_overlapping_batches")
+    else:
+        for j, f in enumerate(faults):
+            _inject(X, slice(cuts[j], cuts[j + 1]), f, bg, fs, rng)
     spec = _file_spec(case["gen"], ns, fs)
     s2v = calib.s2v(spec)[:nc]
     _, order = calib.geometry(spec, sort=True)  # returned column i = on-disk channel order[i]
@@ -687,6 +701,9 @@ def _run_file(case, ctx):
         path = rec.compress(binf, nc + 1, fs, 30000, keep_bin=False) if case["cbin"] else binf
         del D
         kw = {"n_batches": nb} if bd == 0.3 else {"n_batches": nb, "batch_duration": bd}  # 0.3 s is the default
+        if nb == 10 and bd == 0.3:
+            kw = {}  # both defaults: the plain call form
+            ctx.label("file_default_call_form")
         got = ctx.call("C15.file", v.detect_bad_channels_cbin, path, **kw)
     if got is ctx.CRASH:
         return
